@@ -401,6 +401,7 @@ COMPONENTS = {
 }
 
 RULES = {
+    "C19": "one seed -> convex OCP -> seeded history with solver faults -> to_function(args, results) -> later updates of unlisted values -> evaluation at seeded argument values vs the imperative pipeline on a fresh replica; non-trivial = distinct (op sequence, argument kinds, method, solver) whose comparison reached equality",
     "C12": "one seed -> swarm config (templates, direct stages, clones, parent variable) -> seeded interleaving of template / clone / sibling / parent edits, queries and solves with solver faults; non-trivial = distinct sequence of (op kind, actor class) that contains at least one clone and reached the equality oracle of a check",
     "C20": "one seed -> one well-posed base OCP; for it every (fault kind x position x method x timing x trigger) case is enumerated; evaluations = cases executed; distinct = distinct case keys whose control run reached the solver seam",
     "C13": "one seed -> swarm config -> well-posed base OCP(s) -> seeded history over the public API with solver faults; non-trivial = distinct op-kind sequence (with method classes) that contains a post-transcription edit/update or a fired fault AND reached the equality oracle of a check step",
